@@ -10,7 +10,24 @@ From Coq Require Import List NArith Bool Arith.
 Import ListNotations.
 From AnySync Require Export Model.Store.
 
-Inductive case := Case (w : world) (o : op) (ob : obs).
+(* Second fault kind ("cancel"): the context the operation was called with is cancelled immediately before the
+   k-th storage call; the call (and every later one) is answered by the real store.  The model has ONE notion of a
+   failed storage call ([fault], Model/Store.v): the recovery may not depend on why the call failed, nor on the
+   context of the failed operation being alive.  So the outcome at boundary k is either
+     [CErr f]        the operation returned an error: [f] is judged exactly like an injected error
+                     ([spec_fault], and compared with [model_fault]); or
+     [CDone live im] the store did not react to the dead context any more (any-store's Commit / Rollback take no
+                     context) and the operation returned no error: it must then be COMPLETE, i.e. durable state,
+                     reopened objects and live heads as after the fault-free run. *)
+Inductive cobs :=
+| CErr (f : fobs)
+| CDone (live : list N) (final : image).
+
+Inductive case :=
+| Case (w : world) (o : op) (ob : obs)
+| CaseCancel (w : world) (o : op) (ob : obs) (cs : list cobs).
+   (* [ob] of a CaseCancel: the fault-free observation with o_images = [] and o_faults = [] (they are judged in
+      the Case of the same operation) *)
 
 (* number of modelled calls among the first k observed calls *)
 Definition modelled_prefix (l : list ocall) (k : nat) : nat := length (strip (firstn k l)).
@@ -39,8 +56,33 @@ Definition calls_sub (a b : list call) : bool := forallb (fun c => existsb (call
 Definition script_eqb (a b : list call) : bool :=
   (length a =? length b)%nat && calls_sub a b && calls_sub b a.
 
+Definition spec_done (ob : obs) (live : list N) (final : image) : bool :=
+  table_eqb (im_table final) (o_post ob) && inv_b (im_table final) && reopen_ok final
+  && sorted_eqb live (o_live ob).
+
+Definition spec_cancel (ob : obs) (cs : list cobs) : bool :=
+  o_ok ob
+  && forallb (fun c => match c with CErr f => spec_fault ob f | CDone l im => spec_done ob l im end) cs
+  && (length cs =? length (o_calls ob))%nat.
+
+Definition model_cancel_ok (w : world) (o : op) (ob : obs) (cs : list cobs) : bool :=
+  let m := model_obs w o in
+  inv_b (w_store w) && uniq (w_store w) && consistent w && tuniq (w_trees w)
+  && op_wf w o && op_wf2 w o && op_live w o
+  && table_eqb (o_pre ob) (w_store w)
+  && (o_obj ob =? o_obj m)
+  && Bool.eqb (o_ok ob) (o_ok m)
+  && script_eqb (strip (o_calls ob)) (script w o)
+  && table_eqb (o_post ob) (o_post m)
+  && sorted_eqb (o_live ob) (o_live m)
+  && forall_idx (fun k c =>
+       match c with
+       | CErr f => fobs_eqb f (model_fault w o (Nat.max 1 (modelled_prefix (o_calls ob) k)))
+       | CDone l im => table_eqb (im_table im) (o_post m) && sorted_eqb l (o_live m)
+       end) 1 cs.
+
 Definition model_ok (c : case) : bool :=
-  let '(Case w o ob) := c in
+  match c with CaseCancel w o ob cs => model_cancel_ok w o ob cs | Case w o ob =>
   let m := model_obs w o in
   (* the case is inside the model's domain *)
   inv_b (w_store w) && uniq (w_store w) && consistent w && tuniq (w_trees w)
@@ -52,9 +94,14 @@ Definition model_ok (c : case) : bool :=
   && table_eqb (o_post ob) (o_post m)
   && sorted_eqb (o_live ob) (o_live m)
   && forall_idx (fun k im => table_eqb (im_table im) (crash w o (modelled_prefix (o_calls ob) k))) 0 (o_images ob)
-  && forall_idx (fun k f => fobs_eqb f (model_fault w o (Nat.max 1 (modelled_prefix (o_calls ob) k)))) 1 (o_faults ob).
+  && forall_idx (fun k f => fobs_eqb f (model_fault w o (Nat.max 1 (modelled_prefix (o_calls ob) k)))) 1 (o_faults ob)
+  end.
 
-Definition spec_ok (c : case) : bool := let '(Case _ _ ob) := c in spec_C10 ob.
+Definition spec_ok (c : case) : bool :=
+  match c with
+  | Case _ _ ob => spec_C10 ob
+  | CaseCancel _ _ ob cs => spec_cancel ob cs
+  end.
 
 Fixpoint check_from (i : N) (l : list case) : list (N * N) :=
   match l with
